@@ -303,6 +303,71 @@ def run_case(case, ctx, sdir):
                                                                                item["exp"], item["obs"]), witness)
 
 
+def run_reuse(case, ctx):
+    """One writer instance used more than once (two serialisations of one document, or a second export after
+    the document was edited): every export must describe the document as it is at that moment."""
+    import random
+    from odml.tools.rdf_converter import RDFWriter, RDFReader
+    from odml.tools.odmlparser import ODMLWriter
+    from checks.c02_dict import edit_doc
+    rec = ctx.rec
+    spec = dec(case["specs"][0])
+    with warnings.catch_warnings():
+        warnings.simplefilter("ignore")
+        try:
+            doc = gen.build_doc(spec)
+        except Exception:
+            return
+        if _has_tuple([model.model_of(doc)]) or not list(doc.itersections()):
+            return
+        defaults = default_subclasses()
+        rng = random.Random("C10reuse|%s" % case.get("i"))
+        fmt1, fmt2 = rng.choice(FORMATS), rng.choice(FORMATS)
+        for who in ("RDFWriter", "ODMLWriter"):
+            rec.monitor("instance-reuse")
+            rec.evaluation()
+            witness = dict(case, reuse=who)
+            try:
+                if who == "RDFWriter":
+                    w = RDFWriter(doc)
+                    export = lambda f: w.get_rdf_str(f)
+                else:
+                    ow = ODMLWriter("RDF")
+                    export = lambda f: ow.to_string(doc, rdf_format=f)
+                export(fmt1)
+                second = export(fmt2)                 # same document, second serialisation
+                if who == "RDFWriter":
+                    for key, detail in shape_problems(w.graph, [model.model_of(doc)], True, defaults):
+                        rec.violation("reuse:%s/second-export/shape/%s" % (who, key), detail, witness)
+                edit_doc(doc, rng)
+                removed = None
+                secs = list(doc.itersections())
+                victims = [p for x in secs for p in x.properties]
+                if victims and rng.random() < 0.6:
+                    removed = rng.choice(victims)
+                    removed.parent.remove(removed)
+                third = export(fmt2)                  # after the edit
+                if who == "RDFWriter":
+                    for key, detail in shape_problems(w.graph, [model.model_of(doc)], True, defaults):
+                        rec.violation("reuse:%s/export-after-edit/shape/%s" % (who, key), detail, witness)
+                backs = [RDFReader().from_string(second, fmt2), RDFReader().from_string(third, fmt2)]
+            except Exception as exc:
+                rec.count("reuse-skipped", "%s:%s" % (who, type(exc).__name__))
+                continue
+            rec.count("reuse", "%s|%s->%s|%s" % (who, fmt1, fmt2, "removal" if removed is not None else "edit-only"))
+            exp = normalise(model.model_of(doc))
+            if len(backs[1]) != 1:
+                rec.violation("reuse:%s/export-after-edit/documents-returned-differ" % who, str(len(backs[1])), witness)
+                continue
+            for item in model.diff(exp, normalise(model.model_of(backs[1][0])), ignore=IGNORE, unordered=True):
+                if item["field"] == "repository":
+                    continue
+                if item["field"] in ("values", "uncertainty") and fmt2 in ("turtle", "n3"):
+                    continue      # double shortening is judged (as a known finding) by the round-trip monitor
+                rec.violation("reuse:%s/export-after-edit/%s" % (who, item.get("kind") or item["field"]),
+                              "%s.%s expected %r got %r" % (item["path"], item["field"], item["exp"], item["obs"]), witness)
+
+
 def _has_tuple(models):
     return any(n["k"] == "prop" and (n["dtype"] or "").endswith("-tuple") and n["values"]
                for m in models for _, n in model.walk(m))
@@ -330,6 +395,7 @@ def run(ctx):
         else:
             case["formats"] = [FORMATS[i % len(FORMATS)], "turtle"]
         run_case(case, ctx, sdir)
+        run_reuse(case, ctx)
         if i < 2:
             rec.sample({"documents": len(specs), "nodes": [gen.count_nodes(s) for s in specs]})
         if ctx.time_left() < 0:
@@ -338,4 +404,6 @@ def run(ctx):
 
 def replay(case, ctx):
     from vlib import env
+    if case.get("reuse"):
+        return run_reuse(case, ctx)
     run_case(case, ctx, env.scratch())
